@@ -55,6 +55,14 @@ pub fn zoned_diff(z: &Zone, t1: i128, t2: i128, largest: U) -> Result<Internal, 
         return Ok(Internal { y: 0, mo: 0, w: 0, d: 0, t: t2 - t1 });
     }
     let sign: i128 = if t2 - t1 < 0 { -1 } else { 1 };
+    // the same holds when the two local *dates* are in the reverse of the exact order (a backward transition that
+    // crosses local midnight, e.g. America/St_Johns 2005-10-30 00:01 -> 2005-10-29 23:01): no whole day lies between
+    // the instants. The specified steps produce a date part of -sign days next to a time part of more than a day there
+    // and violate their own sign assertion; the statement (a sign-uniform result that add() maps back, with a time part
+    // shorter than the local day) has exactly one answer, the elapsed time
+    if ((end.day - start.day).signum() as i128) == -sign {
+        return Ok(Internal { y: 0, mo: 0, w: 0, d: 0, t: t2 - t1 });
+    }
     let max_corr = if sign == 1 { 2 } else { 1 };
     let mut corr: i128 = if (end.ns - start.ns).signum() == -sign { 1 } else { 0 };
     let mut success = false;
